@@ -336,6 +336,7 @@ def run(ctx, rep):
         _result_stored(rep, P, F, cb, cbi, ct)
     # raw address
     _no_raw(rep, P, F)
+    absolute_flag(ctx, rep, F, P)
     rep.assume("the section containing a relocation is placed at an address that is a multiple of its sh_addralign (layout), so offset parity = address parity when alignment >= 2")
     rep.assume("the dynamic loader applies RELA RELATIVE as *place = base + addend and RELR as *place += base")
 
@@ -531,3 +532,99 @@ def _no_raw(rep, P, F):
                 if "raw_value" in v or "plt_address(" in v and "write_address_relocation" not in v:
                     raws.append((s["l"], v))
     rep.ob("no-raw-address", "process_resolution", len(avoid) >= 2 and not raws, "on the (is_address, relocatable) edges every GOT word comes from write_address_relocation or is 0 with a symbol-based relocation" if not raws else f"raw GOT stores: {raws}", pr.file, pr.line)
+
+
+def absolute_flag(ctx, rep, F, P):
+    """ValueFlags::ABSOLUTE means "this value does not move with the load address": every place that decides whether a stored address
+    needs a RELATIVE/RELR relocation keys off it (is_address() == !ABSOLUTE && ...). So it may only be given to values that really are
+    load-address independent. Producers are a closed table, each under its guard; the prelude's per-placement table gives ABSOLUTE exactly
+    to undefined and `--defsym NAME=<number>` symbols, never to section start/end symbols, the load base or `--defsym ALIAS=SYMBOL`."""
+    import decide
+    from mir import callee_key, op_const, stable, variant_blocks
+    rep.rule("absolute-flag", "ValueFlags::ABSOLUTE is produced only at the listed sites, each under its guard; in Prelude::load_symbols exactly the placements "
+             "Undefined, ForceUndefined and DefsymAbsolute get it (address-valued placements must stay relocatable)")
+    VFK = "libwild::value_flags::ValueFlags::ABSOLUTE"
+    PRODUCERS = {
+        "libwild::symbol_db::RegularObjectSymbolLoader": "is_absolute() (SHN_ABS) or undefined symbol of a regular object",
+        "libwild::symbol_db::DynamicObjectSymbolLoader": "undefined symbol of a shared object",
+        "libwild::symbol_db::load_symbols": "Prelude::load_symbols: per-placement table (checked below)",
+        "libwild::elf_writer::write_plt_got_entries": "TLSLD module-id / offset GOT pair of the executable: link-time constants",
+        "libwild::elf_x86_64::": "unit-test helper (cfg(test) code is not analysed; listed for completeness)",
+    }
+    sites = []
+    for b in F.all_bodies:
+        if not b.key.startswith(("libwild::", "<libwild::")) or stable(b.key).startswith("libwild::value_flags::"):
+            continue
+        for bi, blk in enumerate(b.blocks):
+            if blk.get("cleanup"):
+                continue
+            hit = False
+            for s_ in blk["s"]:
+                if s_["k"] == "assign":
+                    rv = s_["rv"]
+                    for o in ([rv.get("a")] if rv.get("a") else []) + ([rv.get("b")] if rv.get("b") else []) + list(rv.get("ops") or []):
+                        c = op_const(o) if o else None
+                        if c and (c.get("def") or "") == VFK:
+                            hit = True
+            t = blk["t"]
+            if t["k"] == "call":
+                ck = callee_key(t["f"]) or ""
+                if not ck.endswith(("::contains", "::intersects")):
+                    for a in t["args"]:
+                        c = op_const(a)
+                        if c and (c.get("def") or "") == VFK:
+                            hit = True
+            if hit:
+                sites.append((b, bi))
+    seen = set()
+    for b, bi in sites:
+        name = stable(b.key)
+        row = next((k for k in PRODUCERS if k in name), None)
+        seen.add(name)
+        rep.ob("absolute-flag", f"producer:{name}", row is not None, (f"listed: {PRODUCERS[row]}" if row else "ABSOLUTE is produced at a site that is not in the table: an address marked absolute gets no dynamic relocation in PIE/shared outputs"), b.file, b.line)
+    rep.floor("absolute-flag", "bodies producing ABSOLUTE", len(seen), 4)
+    # guards of the loaders
+    for b, bi in sites:
+        name = stable(b.key)
+        at = decide.atoms_at(P, F, b, bi)
+        if "RegularObjectSymbolLoader" in name:
+            ok = any(("is_absolute" in a and v is True) or ("is_undefined" in a and v is True) or (a.startswith("place:") and "undefined" in a and v is True) for a, v in at)
+            rep.ob("absolute-flag", f"guard:{name.split('::')[-1]}:regular", ok, f"ABSOLUTE on the is_absolute() or undefined edge (facts: {sorted((a.split('(')[0], v) for a, v in at if isinstance(v, bool))[:4]})", b.file, b.blocks[bi]["t"].get("l") or b.line)
+        elif "DynamicObjectSymbolLoader" in name:
+            ok = any("is_undefined" in a and v is True for a, v in at)
+            rep.ob("absolute-flag", f"guard:{name.split('::')[-1]}:dynamic", ok, "ABSOLUTE on the is_undefined() edge", b.file, b.line)
+    pl = next((b for b, _bi in sites if stable(b.key) == "libwild::symbol_db::load_symbols"), None)
+    if pl is None:
+        rep.lost("absolute-flag", "Prelude::load_symbols")
+        return
+    flow, cfg = P.flow(pl), P.cfg(pl)
+    SP = next((a for a in ("libwild::parsing::SymbolPlacement", "libwild::symbol_db::SymbolPlacement", "libwild::layout::SymbolPlacement") if F.adt(a)), None)
+    if SP is None:
+        cand = [k for k in getattr(F, "headers", {})]
+        rep.lost("absolute-flag", "SymbolPlacement ADT")
+        return
+    variants = [v["name"] if isinstance(v, dict) else v for v in F.adt(SP)["variants"]]
+    WANT_ABS = {"Undefined", "ForceUndefined", "DefsymAbsolute"}
+    abs_blocks = {bi for b, bi in sites if b is pl}
+    from mir import enum_switch
+    ef = cfg.edge_facts()
+    got = {}
+    for sb in cfg.reach:
+        es = enum_switch(F, pl, flow, cfg, sb)
+        if not es or es[0] != SP:
+            continue
+        for lab, names in es[1].items():
+            if not names:
+                continue
+            tgts = [t for l2, t in cfg.succ[sb] if l2 == lab]
+            hit = any(cfg.dominates(t, ab) for t in tgts for ab in abs_blocks)
+            for v in names:
+                got[v] = got.get(v, False) or hit
+    for v in variants:
+        if v not in got:
+            rep.ob("absolute-flag", f"prelude:{v}", False, f"placement {v} has no arm of its own in Prelude::load_symbols (catch-all?)", pl.file, pl.line)
+            continue
+        has = got[v]
+        rep.ob("absolute-flag", f"prelude:{v}", has == (v in WANT_ABS),
+               f"placement {v}: ABSOLUTE {'set' if has else 'not set'} ({'a link-time constant' if v in WANT_ABS else 'an address that moves with the image: must stay relocatable'})", pl.file, pl.line)
+    rep.floor("absolute-flag", "SymbolPlacement variants", len(variants), 8)
